@@ -414,6 +414,7 @@ def crash_key(crash, entry, detail="", site=True):
         first = True
         for fm in _frame_re.finditer(text):
             idx, fn, loc = fm.group(1), fm.group(2), fm.group(3) or ""
+            fn = re.sub(r"\.(constprop|isra|part|cold|lto_priv)(\.\d+)?", "", fn)
             if loc.startswith(common.REPO + "/"):
                 frame = fn
                 slug = _site_slug(loc)
@@ -421,6 +422,7 @@ def crash_key(crash, entry, detail="", site=True):
             if first and idx == "0":
                 libc = re.sub(r"^(__interceptor_|__asan_|__sanitizer_|__GI_|__)", "", fn)
                 libc = re.sub(r"(_avx\w*|_sse\w*|_erms|_evex\w*)$", "", libc)
+                libc = {"MemcmpInterceptorCommon": "memcmp"}.get(libc, libc)
             first = False
             if "/drivers/" in loc:
                 break
